@@ -7,6 +7,8 @@ SUBSETS = {
     "C02": {"check_rw", "check_chain_d0", "check_chain_d3", "check_chain_d6", "check_wide", "batch_chain_d0", "batch_chain_d6", "grpc_check_chain_d0"},
     "C08": {"check_rw", "check_chain_d0", "check_m", "batch_chain_d0", "batch_chain_d6", "grpc_check_chain_d0", "list_n", "list_m"},
     "C09": {"expand_d0", "expand_d3", "expand_d6", "grpc_expand_d0", "check_chain_d0"},
+    # the relations a check may use are those of the document in force
+    "C11": {"check_rw", "check_chain_d0", "check_m", "grpc_check_chain_d0"},
     # every request carries a deadline: one that has not returned 15 s after its deadline is a reply no reference server gives
     "C15": {"check_rw", "check_chain_d0", "check_m", "check_wide", "batch_chain_d0", "grpc_check_chain_d0"},
 }
@@ -22,7 +24,7 @@ def reconf(ck, binary, tier, pid):
                 ck.violation("Reconf.tla: " + r.violation, {"tlc": r.raw_tail[-2000:]})
         elif not r.violation:
             raise Inconclusive("Reconf.tla: the memoising server satisfies CurrentConfig (the invariant is vacuous)")
-    runs, steps = (48, 16) if tier == "quick" else (600, 24)
+    runs, steps = (72, 16) if tier == "quick" else (600, 24)
     cfg = write_cfg(['Mode = "gen"', "Stale = FALSE", "NRuns = %d" % runs, "NSteps = %d" % steps])
     g = tlc("Reconf", "g.cfg", files={"g.cfg": cfg}, extra=["-seed", str(seed())], workers=8, heap="2g")
     ck.add_tlc(g)
@@ -45,6 +47,34 @@ def reconf(ck, binary, tier, pid):
                 st.append(s)
         if any(s["op"] == "req" for s in st):
             hs.append({"run": h["run"], "steps": st, "file": viafile, "opl": viaopl})
+    # histories that are always replayed (TLC draws the others): each setting changed after a request was served, a request
+    # that depends on it, the setting changed back, the request again - in every way of reconfiguring
+    def fixed(ops):
+        cfg = {"depth": 8, "width": 100, "ns": ["n", "m"], "content": "plain"}
+        st = []
+        for op in ops:
+            if op[0] == "set":
+                cfg = dict(cfg, **{op[1]: op[2]})
+                st.append(dict(cfg, op="set", key=op[1], req=""))
+            else:
+                st.append(dict(cfg, op="req", key="", req=op[1]))
+        return st
+    W = [
+        [("req", "check_chain_d0"), ("req", "expand_d0"), ("set", "content", "rw"), ("req", "check_rw"), ("req", "batch_chain_d0"), ("req", "expand_d0"),
+         ("set", "content", "plain"), ("req", "check_rw"), ("set", "content", "rw"), ("req", "check_rw"), ("req", "grpc_check_chain_d0"), ("req", "list_n")],
+        [("req", "check_m"), ("req", "check_chain_d0"), ("req", "expand_d3"), ("set", "ns", ["n"]), ("req", "check_m"), ("req", "list_m"), ("req", "check_chain_d0"),
+         ("req", "expand_d3"), ("set", "ns", ["n", "m"]), ("req", "check_m"), ("req", "list_m"), ("req", "batch_chain_d0"), ("req", "grpc_expand_d0")],
+        [("req", "check_chain_d6"), ("req", "expand_d6"), ("set", "depth", 2), ("req", "check_chain_d0"), ("req", "check_chain_d6"), ("req", "expand_d6"), ("req", "expand_d0"),
+         ("req", "batch_chain_d6"), ("set", "width", 1), ("req", "check_wide"), ("set", "depth", 8), ("req", "check_chain_d0"), ("req", "expand_d0"),
+         ("set", "width", 100), ("req", "check_wide"), ("req", "grpc_check_chain_d0"), ("req", "grpc_expand_d0")],
+    ]
+    for wi, ops in enumerate(W):
+        for mode in (0, 1, 2):     # Config.Set, watched configuration file, watched OPL file
+            if mode == 1 and wi == 0:
+                continue           # the content of a namespace cannot be written into the configuration file
+            st = [x for x in fixed(ops) if x["op"] == "set" or x["req"] in keep]
+            if any(x["op"] == "req" for x in st):
+                hs.append({"run": 9000 + 10 * wi + mode, "steps": st, "file": mode in (1, 2), "opl": mode == 2})
     if not hs:
         raise Inconclusive("Reconf.tla generated no histories")
     recs = {x["h"]: x for x in run_harness(binary, "reconf", {"histories": hs}, shards=8)}
